@@ -269,12 +269,43 @@ def run(ctx, prop):
         cases += pack_cases(enum_methods(2, letters), prefix="enum2-")
         cases += pack_cases(enum_methods(3, [l for l in letters if l not in ("u8", "tobj", "sarr")]), per=400, prefix="enum3-")
         nrand = 250
-    opts = gen.Opts(max_params=10, big_counts=True, small_obj_structs=True, mix_inarr_outobj=True,
+    opts = gen.Opts(max_params=10, big_counts=False, small_obj_structs=True, mix_inarr_outobj=True,
                     two_obj_arrays=False, pad_bundles=True, max_ifaces=3)
     for i in range(nrand):
         cases.append(gen.gen_case(ctx.rng, opts, cid=f"C02-{ctx.seed}-{i}"))
     for case in cases:
         check_case(ctx, case, st)
+    # ---- the bound: a method is accepted exactly when every class fits its 4-bit field
+    def one_method(params):
+        nodes = [dict(n) for n in PRELUDE] + [{"k": "interface", "name": "IB", "base": None, "members": [
+            {"k": "method", "name": "mb", "optional": False, "doc": None, "params": params}]}]
+        return {"id": "bound", "files": [{"path": "main.idl", "nodes": nodes}], "main": "main.idl", "incdirs": []}
+    P = lambda d, t, a, n: {"dir": d, "type": t, "arr": a, "name": n}
+    bound_cases = []
+    for n in (14, 15, 16, 17, 255, 256):
+        bound_cases.append([P("in", "buffer", None, f"b{i}") for i in range(n)])
+        bound_cases.append([P("out", "uint16", "unbounded", f"b{i}") for i in range(n)])
+        bound_cases.append([P("in", "buffer", None, f"b{i}") for i in range(n - 1)] + [P("in", "uint8", None, "s1"), P("in", "S4", None, "s2")])
+        if n <= 256:
+            bound_cases.append([P("in", "interface", n, "oa")])
+            bound_cases.append([P("out", "IT", n, "oa"), P("in", "uint32", None, "x")])
+        bound_cases.append([P("in", "OB", None, f"o{i}") for i in range(min(n, 20))])
+    for params in bound_cases:
+        case = one_method(params)
+        exp = mink_counts(case, case["files"][0]["nodes"][-1]["members"][0])
+        with C.Scratch() as tmp:
+            root = os.path.join(tmp, "src")
+            idl.render_case(case, root)
+            rc, err = E.run_idlc(ctx, root, "main.idl", [], "c", os.path.join(tmp, "o.h"))
+            model, impl = E.e1(ctx, case, root)
+            ctx.bump("evaluations")
+            vm = E.verdict_of(model) == "accept"
+            if vm != (rc == 0) or vm != (E.verdict_of(impl) == "accept"):
+                st["disagree"].append({"case": {"id": "bound", "counts": exp}, "model_accepts": vm, "cli_exit": rc})
+            if (max(exp) <= 15) != (rc == 0):
+                st["oracle_fail"].append({"case": {"id": "bound", "counts": exp, "params": len(params)}, "failures": [
+                    {"kind": "bound", "error": "accepted although a class exceeds 15" if rc == 0 else "rejected although every class fits",
+                     "cli_exit": rc, "stderr": err[-200:]}]})
     # every listed finding must still reproduce on the real code (else the list is stale)
     known_lines = []
     for k in F.load("C02"):
